@@ -536,7 +536,7 @@ func c11Exec(t *testing.T, r *kit.Run) func(c11Prog) kit.Outcome {
 		if obs.retTok {
 			o.Classes = append(o.Classes, "login-with-returned-token")
 		}
-		if fail != "" {
+		if fail != "" && res.Viol == nil {
 			o.Skip = true
 			fmt.Println("C11 bubble failure (not judged here):", firstLine(fail))
 			return o
